@@ -1216,7 +1216,7 @@ impl Engine for WorldEngine {
         let rnd = env_u64("VERIF_RANDOM_CASES");
         match self.prop {
             WorldProp::C09 => (gen::c09_enumerated(), rnd.unwrap_or(if thorough { 150_000 } else { 12_000 })),
-            WorldProp::C11 => (0, rnd.unwrap_or(if thorough { 100_000 } else { 8_000 })),
+            WorldProp::C11 => (gen::c11_enumerated(), rnd.unwrap_or(if thorough { 100_000 } else { 8_000 })),
             WorldProp::C12 => (gen::c12_enumerated(thorough), rnd.unwrap_or(if thorough { 400_000 } else { 12_000 })),
         }
     }
